@@ -61,7 +61,17 @@ def run_cases(lib, EoN, sim, cases, modes, oracle=None, nontrivial=None, res=Non
                     oimpl = lib.run_impl(EoN, sim, case, pad); orp = lib.case_json(case, pad)
                     om = dict(m, draws=pad)
                     res.stat('impl_ran_past_model')
-                for suffix, what in oracle(case, oimpl, om) or []:
+                try:
+                    verdicts = oracle(case, oimpl, om) or []
+                except Exception as e:
+                    # the oracle replays the implementation's own trace against the specification; when the trace is so far from
+                    # what the specification allows that the replay itself breaks down, that is a broken correspondence on this
+                    # input (reported without a failing input unless another case yields one), never a crash of the check
+                    verdicts = []
+                    if not d:
+                        res.mism.append((size, 'the property oracle could not follow the trace of the implementation (%s: %s)' % (type(e).__name__, str(e)[:80]), orp))
+                    res.stat('oracle_could_not_follow')
+                for suffix, what in verdicts:
                     res.oracle_bad.append((size, suffix, what, orp))
             if nontrivial is None or nontrivial(case, m, impl):
                 res.nontrivial += 1
